@@ -123,6 +123,8 @@ Definition remove_link_pre (g : graph) (name : str) : bool :=
 Definition op_pre (g : graph) (o : op) : bool :=
   match o with
   | OAddNode _ _ ntype => mem_str ntype enum_node_types
+  | OAddComponent _ _ _ _ _ _ _ => true
+  | OAddStorage _ _ _ => true
   | ONodeAddNS _ _ _ nstype => mem_str nstype enum_service_types
   | OAddNS _ _ nstype [] => mem_str nstype enum_service_types
   | OAddLink _ _ ltype ifs => mem_str ltype enum_link_types && add_link_pre g ifs
